@@ -58,7 +58,9 @@ func OnErrorResumeNextWith[T any](finally ...Observable[T]) func(Observable[T]) 
 			return source
 		}
 
-		finally = append([]Observable[T]{source}, finally...)
+		// A local slice: assigning to `finally` would change the operator itself, so a second
+		// application of the same operator value would run the sources of the first one too.
+		sources := append([]Observable[T]{source}, finally...)
 
 		return NewUnsafeObservableWithContext(func(subscriberCtx context.Context, destination Observer[T]) Teardown {
 			subscriptions := NewSubscription(nil)
@@ -67,14 +69,14 @@ func OnErrorResumeNextWith[T any](finally ...Observable[T]) func(Observable[T]) 
 
 			var err error
 
-			for i := range finally {
+			for i := range sources {
 				if subscriptions.IsClosed() {
 					break
 				}
 
 				err = nil
 
-				sub := finally[i].SubscribeWithContext(
+				sub := sources[i].SubscribeWithContext(
 					subscriberCtx,
 					NewObserverWithContext(
 						destination.NextWithContext,
